@@ -240,18 +240,28 @@ def _dense_core(ctx, f, name, acc, recv):
 
 def r3(ctx):
     f = ctx.func(I + "__iter__")
+    # the format variable: assigned from a getFormat() call
+    fv = None
+    for n in f.own_nodes():
+        if isinstance(n, ast.Assign) and isinstance(n.targets[0], ast.Name) and \
+                text(n.value).replace(" ", "").endswith(".getFormat()"):
+            fv = n.targets[0].id
+    ctx.require(fv, "C07.R3: __iter__ no longer reads a format (getFormat())")
+
+    def gatoms(st):
+        return {pat.catom(ctx, f, t, pol, False) for t, pol in atomic_guards(st)}
     table = {}
     other = None
     for n in f.own_nodes():
-        if isinstance(n, ast.If):
-            p = pat.cmp_raw(n.test)
-            if p and p[0] == "==" and p[1] == "fmt":
-                rets = [s for s in n.body if isinstance(s, ast.Return)]
-                if rets:
-                    table[p[2]] = rets[0]
-            if n.orelse and not (len(n.orelse) == 1 and isinstance(n.orelse[0], ast.If)):
-                if p and p[1] == "fmt":
-                    other = n.orelse
+        if isinstance(n, ast.Return):
+            for a in gatoms(n):
+                if a[0] == "==" and fv in (a[1], a[2]):
+                    lit = a[2] if a[1] == fv else a[1]
+                    table[lit] = n
+        elif isinstance(n, ast.Raise):
+            neg = {a for a in gatoms(n) if a[0] == "!=" and fv in (a[1], a[2])}
+            if len(neg) >= 2:
+                other = [n]
     want = {"'C'": ("iterOccupancy", {"tick": "tick", "start_pos": "start_pos"}),
             "'U'": ("iterActiveShape", {"tick": "tick"})}
     for lit, (meth, args) in want.items():
@@ -281,12 +291,12 @@ def r3(ctx):
     # format source: owner first
     src = []
     for n in f.own_nodes():
-        if isinstance(n, ast.Assign) and text(n.targets[0]) == "fmt":
-            src.append((text(n.value).replace(" ", ""),
-                        [(text(t).replace(" ", ""), pol) for t, pol in guards(n)]))
-    own = [s for s in src if s[0] == "self.getOwner().getFormat()" and
-           ("self.getOwner()isnotNone", True) in s[1]]
-    ra = [s for s in src if s[0] == "self.getRankAttrs().getFormat()"]
+        if isinstance(n, ast.Assign) and text(n.targets[0]) == fv:
+            src.append((text(n.value).replace(" ", ""), gatoms(n)))
+    own = [s_ for s_ in src if s_[0] == "self.getOwner().getFormat()" and
+           pat.A("is not", "self.getOwner()", "None") in s_[1]]
+    ra = [s_ for s_ in src if s_[0] == "self.getRankAttrs().getFormat()" and
+          pat.A("is", "self.getOwner()", "None") in s_[1]]
     if own and ra:
         ctx.ok("C07.R3", f, f.node, "format read from the owner when owned, "
                "else from the fiber's rank attributes", text_="__iter__ format source")
